@@ -546,7 +546,78 @@ def _scratch_of(op):
     return [s for s in out if s is not None]
 
 
+_CALLED = set()
+_hooked = [False]
+
+
+def _hook_operator_call():
+    """Harness-side seam: wrap Operator.__call__ to record which operator
+    classes were actually evaluated (as nodes of expressions, too)."""
+    if _hooked[0]:
+        return
+    o = R.odl()
+    orig = o.Operator.__call__
+
+    names = all_operator_classes(by_class=True)
+
+    def __call__(self, x, out=None, **kwargs):
+        t = type(self)
+        _CALLED.add(names.get(t) or t.__module__ + '.' + t.__name__)
+        return orig(self, x, out, **kwargs)
+
+    __call__.__doc__ = orig.__doc__
+    o.Operator.__call__ = __call__
+    _hooked[0] = True
+
+
+def all_operator_classes(by_class=False):
+    import importlib
+    import inspect
+    import pkgutil
+    o = R.odl()
+    seen = set()
+    bycls = {}
+    for m in pkgutil.walk_packages(o.__path__, 'odl.'):
+        if '.test' in m.name or 'contrib' in m.name:
+            continue
+        try:
+            mod = importlib.import_module(m.name)
+        except Exception:
+            continue
+        for n, c in vars(mod).items():
+            if inspect.isclass(c) and issubclass(c, o.Operator) and \
+                    c.__module__ == mod.__name__:
+                seen.add(c.__module__ + '.' + n)
+                bycls[c] = c.__module__ + '.' + n
+    return bycls if by_class else seen
+
+
+def extra_evidence(prop, total):
+    called = set()
+    for c in total['cover']:
+        if c.startswith('class-called|'):
+            called.add(c.split('|', 1)[1])
+    allc = all_operator_classes()
+    # classes created inside factories (proximals, gradients) have no
+    # importable name; report them separately
+    local = sorted(c for c in called if c not in allc)
+    return {'operator_classes_enumerated': len(allc),
+            'operator_classes_called': len(called & allc),
+            'classes_defined_in_factories_called': len(local),
+            'uncovered_classes': sorted(allc - called)}
+
+
 def execute(prop, plan, ctx):
+    _hook_operator_call()
+    _CALLED.clear()
+    try:
+        _execute(prop, plan, ctx)
+    finally:
+        for c in _CALLED:
+            ctx.cover.add('class-called|' + c)
+
+
+def _execute(prop, plan, ctx):
     if plan.get('dead'):
         if str(plan['dead']).startswith('build-error'):
             ctx.probe('build-error:' + plan['op']['recipe'])
